@@ -919,6 +919,9 @@ func runC12(c *Ctx) {
 	if c12Part("queue") {
 		runC12Queue(c)
 	}
+	if c12Part("refresh") {
+		runC12Refresh(c)
+	}
 	if c12Part("local") {
 		runC12Local(c)
 	}
